@@ -264,6 +264,12 @@ pub fn run(cfg: &Cfg) -> Report {
     let extra: Vec<(MSym, String)> = sets.iter().step_by(cfg.tier.pick(3, 2)).map(|(s, _)| (s.renumbered(&rng.perm1(s.n)), "renumbered".to_string())).collect();
     sets.extend(extra);
     sets.extend(gen_sets.into_iter().filter(|m| m.is_complete_set() && m.ops_are_involutions()).map(|m| (m, "DSets output".to_string())));
+    // large structured sets: flags of polyhedra, projective-plane maps, torus maps (curvature 4, 2, 0 at v = 1)
+    for (name, s) in gen::structured_2d_sets() {
+        if gen::adjacent_orbits(&s).len() <= cfg.tier.pick(14, 40) {
+            sets.push((s, name.to_string()));
+        }
+    }
     // biggest first for load balance
     sets.sort_by_key(|(s, _)| std::cmp::Reverse(gen::adjacent_orbits(s).len()));
     let ctx = par_items(cfg, &sets, |ctx, k, (s, origin)| {
